@@ -6,11 +6,15 @@ namespace LLBuild.Engine
 
 /-- the ghost flag is sticky: only wiping the database clears it -/
 theorem step_dropped {P : Program} {s s' : St} {e : Event} (h : step P s e = some s')
-    (hd : s.pendingDropped = true) : s'.pendingDropped = true ∨ Inv P s' := by
+    (hd : s.pendingDropped = true) : s'.pendingDropped = true ∨ (Inv P s' ∧ InvC P s') := by
   cases e <;> simp only [step] at h
   case wipe =>
     split at h
-    · cases h; right; exact Inv.init P
+    · cases h; right; exact ⟨Inv.init P, Inv.init P⟩
+    · cases h
+  case dbEnd =>
+    split at h
+    · cases h; left; simp [hd]
     · cases h
   case ret v =>
     split at h
@@ -42,9 +46,11 @@ theorem step_dropped {P : Program} {s s' : St} {e : Event} (h : step P s e = som
        · cases h; left; exact hd
        · cases h)
 
-/-- the invariant holds in every state reachable through accepted events (or the flag is set) -/
+/-- the invariant (and the restartability of the committed snapshot) holds in every state reachable
+through accepted events (or the flag is set) -/
 theorem run_inv {P : Program} (hP : P.WF) : ∀ (evs : List Event) (s s' : St),
-    run P s evs = some s' → (s.pendingDropped = true ∨ Inv P s) → (s'.pendingDropped = true ∨ Inv P s')
+    run P s evs = some s' → (s.pendingDropped = true ∨ (Inv P s ∧ InvC P s)) →
+    (s'.pendingDropped = true ∨ (Inv P s' ∧ InvC P s'))
   | [], s, s', h, hi => by simp [run] at h; subst h; exact hi
   | e :: es, s, s', h, hi => by
     simp only [run] at h
@@ -54,16 +60,24 @@ theorem run_inv {P : Program} (hP : P.WF) : ∀ (evs : List Event) (s s' : St),
       rw [hs] at h
       simp only [Option.bind] at h
       apply run_inv hP es s1 s' h
-      rcases hi with hd | hi
-      · exact step_dropped hs hd
+      rcases hi with hd | ⟨hi, hc⟩
+      · rcases step_dropped hs hd with a | a
+        · left; exact a
+        · right; exact a
       · cases hd1 : s1.pendingDropped
-        · right; exact step_inv hP hs hi hd1
+        · right; exact ⟨step_inv hP hs hi hc hd1, step_invC hP hs hi hc hd1⟩
         · left; rfl
 
 theorem reach_inv {P : Program} (hP : P.WF) {evs : List Event} {s : St}
     (h : run P {} evs = some s) (hd : s.pendingDropped = false) : Inv P s := by
-  rcases run_inv hP evs {} s h (Or.inr (Inv.init P)) with h1 | h1
+  rcases run_inv hP evs {} s h (Or.inr ⟨Inv.init P, Inv.init P⟩) with h1 | h1
   · rw [hd] at h1; cases h1
-  · exact h1
+  · exact h1.1
+
+theorem reach_invC {P : Program} (hP : P.WF) {evs : List Event} {s : St}
+    (h : run P {} evs = some s) (hd : s.pendingDropped = false) : InvC P s := by
+  rcases run_inv hP evs {} s h (Or.inr ⟨Inv.init P, Inv.init P⟩) with h1 | h1
+  · rw [hd] at h1; cases h1
+  · exact h1.2
 
 end LLBuild.Engine
